@@ -113,6 +113,24 @@ def shapes_for(seed_bytes, sizes):
                 series('pad-own-name-%s-lines-before' % lname, lambda n, u=unit: u * (n // len(u)) + b'\r\n' + seed_bytes)
                 series('pad-own-name-%s-lines-after' % lname, lambda n, u=unit: seed_bytes + u * (n // len(u)) + b'\r\n')
                 series('pad-own-name-%s-lines-only' % lname, lambda n, u=unit: u * (n // len(u)) + b'\r\n\r\n')
+    # a list of type-length-value items (2-byte list length, items of 2-byte type + 2-byte length): a chain of items cut right
+    # behind one of their inner 2-byte fields, that field claiming everything that follows in the list.  An item class that follows
+    # inner lengths beyond the end of its own item reads the rest of the list for every item.
+    if L >= 8 and int.from_bytes(seed_bytes[0:2], 'big') == L - 2 and 6 + int.from_bytes(seed_bytes[4:6], 'big') <= L:
+        item = seed_bytes[2:6 + int.from_bytes(seed_bytes[4:6], 'big')]
+        for k in range(4, min(len(item) - 1, 14)):
+            def chain(n, k=k):
+                ulen = k + 2
+                count = min(n // ulen, 65533 // ulen)
+                total = count * ulen
+                body = bytearray()
+                for i in range(count):
+                    u = bytearray(item[:ulen])
+                    u[2:4] = (ulen - 4).to_bytes(2, 'big')
+                    u[k:k + 2] = min(total - (i * ulen + k + 2), 65535).to_bytes(2, 'big')
+                    body += u
+                return len(body).to_bytes(2, 'big') + bytes(body)
+            series('chain-greedy-inner-length@%d' % k, chain)
     # declared lengths / counts far beyond the data: the size stays, the declared value doubles
     if L >= 4 and any(b > 0x7f or b < 0x20 for b in seed_bytes[:8]):
         for off in range(0, min(L - 1, 10)):
